@@ -106,6 +106,55 @@ Theorem C01_batch_invariance : forall c (ev : nat -> nat -> list oQ * list oQ) B
             calculate_sets c (eval_batch (fun _ => ev b) 1 R) [nth b fouts []] = Done [r].
 Proof. exact batch_invariance. Qed.
 
+(* end to end, objectives: whenever the evaluation of one variable vector reports values (one_set = _calculate_one_set_of_
+   functions on the rows the evaluator returned, NaN propagation, failure flags, filtered weights and gate included),
+   objective j is -- in terms of the RAW values of the surviving realizations and the weight row in force for j -- the
+   renormalised weighted mean, resp. (as its square) the sample standard deviation with N = survivors with positive weight *)
+Theorem C01_reported_objectives : forall c raw fouts r objs cons,
+  Forall (fun oc : list oQ * list oQ => fst oc <> []) raw ->
+  one_set c raw fouts = Done r -> r_functions r = Some (Values objs cons) ->
+  let emap := resolve_emap (cfg_no c) (cfg_oem c) in
+  forall j, (j < length emap)%nat ->
+  let wrow := in_force (cfg_w c) (r_ow r) j in
+  length wrow = length raw ->
+  let ws := gather (keep_of (r_failed r)) wrow in
+  let fs := nan_to_num (gather (keep_of (r_failed r)) (column j (map fst raw))) in
+  let S := qsum ws in
+  (nth_error (cfg_ests c) (nth j emap 0%nat) = Some Mean -> ~ S == 0 ->
+     exists v, nth j objs FNoEst = FOk v /\ v == dot fs ws / S) /\
+  (nth_error (cfg_ests c) (nth j emap 0%nat) = Some Stddev -> Forall (fun x => 0 <= x) wrow -> (2 <= count_pos ws)%nat ->
+     let N := nat_Q (count_pos ws) in
+     let m := dot fs ws / S in
+     exists v, nth j objs FNoEst = FOk v /\ v == N / (N - 1) * (dot (map (fun x => sq (x - m)) fs) ws / S)).
+Proof.
+  intros c raw fouts r objs cons Hraw H Hf emap j Hj wrow HL.
+  exact (reported_values c raw fouts r objs cons Hraw H Hf fst objs emap (r_ow r)
+                         (or_introl (conj eq_refl (conj eq_refl (conj eq_refl eq_refl)))) j Hj HL).
+Qed.
+
+(* end to end, constraints: the same with the constraint columns, the constraint estimator map and constraint_weights *)
+Theorem C01_reported_constraints : forall c raw fouts r objs cons,
+  Forall (fun oc : list oQ * list oQ => fst oc <> []) raw ->
+  one_set c raw fouts = Done r -> r_functions r = Some (Values objs cons) ->
+  let emap := resolve_emap (cfg_nc c) (cfg_cem c) in
+  forall j, (j < length emap)%nat ->
+  let wrow := in_force (cfg_w c) (r_cw r) j in
+  length wrow = length raw ->
+  let ws := gather (keep_of (r_failed r)) wrow in
+  let fs := nan_to_num (gather (keep_of (r_failed r)) (column j (map snd raw))) in
+  let S := qsum ws in
+  (nth_error (cfg_ests c) (nth j emap 0%nat) = Some Mean -> ~ S == 0 ->
+     exists v, nth j cons FNoEst = FOk v /\ v == dot fs ws / S) /\
+  (nth_error (cfg_ests c) (nth j emap 0%nat) = Some Stddev -> Forall (fun x => 0 <= x) wrow -> (2 <= count_pos ws)%nat ->
+     let N := nat_Q (count_pos ws) in
+     let m := dot fs ws / S in
+     exists v, nth j cons FNoEst = FOk v /\ v == N / (N - 1) * (dot (map (fun x => sq (x - m)) fs) ws / S)).
+Proof.
+  intros c raw fouts r objs cons Hraw H Hf emap j Hj wrow HL.
+  exact (reported_values c raw fouts r objs cons Hraw H Hf snd cons emap (r_cw r)
+                         (or_intror (conj eq_refl (conj eq_refl (conj eq_refl eq_refl)))) j Hj HL).
+Qed.
+
 (* non-vacuity: three realizations with weights 1/2, 1/4, 1/4, the second one failed: mean (2*1/2 + 4*1/4)/(3/4) = 8/3,
    variance 2 * (2/3 * (2 - 8/3)^2 + 1/3 * (4 - 8/3)^2) = 16/9; with one survivor the stddev estimator aborts; an
    unfiltered objective next to a filtered one keeps the configured weights; a batch of two vectors *)
@@ -133,6 +182,20 @@ Proof.
   split; [eexists; split; reflexivity | vm_compute; reflexivity].
 Qed.
 
+(* non-vacuity of the end-to-end statements: one evaluation whose second realization fails is reported with values *)
+Example C01_example_reported :
+  let c := {| cfg_w := [Q_ 1 2; Q_ 1 4; Q_ 1 4]; cfg_ow := [Q_ 1 1]; cfg_nc := 1; cfg_rmin := 2; cfg_pmin := 1;
+              cfg_ests := [Mean; Stddev]; cfg_oem := None; cfg_cem := Some [1%nat]; cfg_ofm := None; cfg_cfm := None |} in
+  let raw := [([Some (Q_ 2 1)], [Some (Q_ 2 1)]); ([Some (Q_ 7 1)], [None]); ([Some (Q_ 4 1)], [Some (Q_ 4 1)])] in
+  Forall (fun oc : list oQ * list oQ => fst oc <> []) raw /\
+  exists r, one_set c raw [] = Done r /\ r_failed r = [false; true; false] /\
+            r_functions r = Some (Values [FOk (Q_ 8 3)] [FOk (Q_ 16 9)]) /\
+            length (in_force (cfg_w c) (r_ow r) 0) = length raw.
+Proof.
+  cbv zeta. split; [repeat constructor; discriminate|].
+  eexists. split; [vm_compute; reflexivity|]. split; [reflexivity|]. split; reflexivity.
+Qed.
+
 Print Assumptions C01_mean_spec.
 Print Assumptions C01_var_spec.
 Print Assumptions C01_var_too_few.
@@ -143,3 +206,5 @@ Print Assumptions C01_nothing_else.
 Print Assumptions C01_rows_in_force.
 Print Assumptions C01_layout.
 Print Assumptions C01_batch_invariance.
+Print Assumptions C01_reported_objectives.
+Print Assumptions C01_reported_constraints.
